@@ -35,6 +35,8 @@ def main(tier, seed):
                 tooltier.add_demo_attrs(prog, random.Random("c15demo/%s/%s" % (seed, i)))
             if i % 4 == 1:
                 tooltier.add_docs(prog, random.Random("c15doc/%s/%s/%s" % (seed, i, b)))
+            if i % 7 == 4:
+                tooltier.underscore_fields(prog, random.Random("c15us/%s/%s/%s" % (seed, i, b)))
             if i % 7 == 2:
                 tooltier.rename_variants(prog, random.Random("c15var/%s/%s/%s" % (seed, i, b)))
             if i % 3 == 0 and tooltier.add_special_methods(prog, random.Random("c15sp/%s/%s/%s" % (seed, i, b)), b):
